@@ -13,7 +13,19 @@ the 5th element of `row` is located here with Python's `ast` (fail-closed) and h
 text; the same walk checks what the translator does not see: count / bases start at 0 and are only
 accumulated inside the single loop, the row tuple is (chrom, start, end, gene, <log2>, depth) and the
 function returns (count, row).  If any of this no longer holds the fragment is made unfindable and the
-translator refuses (a broken tie for C09)."""
+translator refuses (a broken tie for C09).
+
+Further ties (see the comments at the specs below): FnCoverageCmd (bedcov's samtools command line, C09_source_bedcov_cmd*),
+FnCoverageDetect (detect_bedcov_columns whole, C09_source_detect_*).  Mutations tried with tools/mut_fn.sh:
+  FnCoverageCmd     `min_mapq > 0` -> `min_mapq > 1`                                  KILLED (source_bedcov_cmd)
+                    `"-Q"` -> `"-q"`                                                  KILLED
+                    `str(min_mapq)` -> `str(min_mapq + 1)`                            KILLED
+  FnCoverageDetect  `if tabcount == 4:` -> `if tabcount == 5:`                        KILLED (source_detect_columns)
+                    `+ fillers + ["basecount"]` -> `+ ["basecount"] + fillers`        KILLED
+                    `"gene", "basecount"]` -> `"name", "basecount"]` (4-tab return)   KILLED
+  FnCoveragePileup  `ok_idx = spans > 0` -> `spans >= 0`                              KILLED (source_pileup_depth)
+                    `ok_idx = table["depth"] > 0` -> `>= 0`                           KILLED (source_pileup_log2)
+                    `/ spans[ok_idx]` -> `* spans[ok_idx]`                            KILLED"""
 import ast, os, sys
 
 
@@ -114,5 +126,45 @@ MODULES = {
              params=[('count', 'Z'), ('bases', 'Z'), ('filter_read(read)', 'B', 'passes'),
                      ('sum((1 for p in read.positions if start <= p < end))', 'Z', 'read_bases')],
              ret=['Z', 'Z']),
+    ]),
+    # bedcov: the samtools command line built before the call (fragment `cmd = [bed_fname, bam_fname]` .. `if min_mapq and
+    # min_mapq > 0: cmd.extend(["-Q", str(min_mapq)])`): the list of strings handed to pysam.bedcov, before `--reference`.
+    # (Proofs/FnCoverageCmd.v: C09_source_bedcov_cmd -- `-Q n` is present exactly when the model's pileup_cut is not samtools'
+    # default 0, and then n = pileup_cut min_mapq)
+    # mutations (tools/mut_fn.sh): `min_mapq > 0` -> `min_mapq > 1` KILLED; `"-Q"` -> `"-q"` KILLED; `str(min_mapq)` -> `str(min_mapq + 1)` KILLED
+    'FnCoverageCmd': ('cnvlib/coverage.py', [
+        dict(name='bedcov', coq='fn_bedcov_cmd', py_params=['bed_fname', 'bam_fname', 'min_mapq', 'fasta'],
+             fragment=dict(first='cmd = [bed_fname', last='if min_mapq'),
+             returns=['cmd'],
+             params=[('bed_fname', 'S'), ('bam_fname', 'S'), ('min_mapq', 'Z')],
+             ret='LS'),
+    ]),
+    # detect_bedcov_columns, the WHOLE function: the decision on the number of tabs in the first line.  The first line, its
+    # tab count and the filler names (a comprehension over range(1, tabcount - 3)) are opaque typed inputs keyed by their
+    # source text; `if tabcount < 3: raise` is a recorded guard.
+    # (Proofs/FnCoverageDetect.v: C09_source_detect_columns -- with the model's count_char / filler_names it is the model's
+    # detect_bedcov_columns wherever that does not raise)
+    # mutations (tools/mut_fn.sh): `if tabcount == 4:` -> `if tabcount == 5:` KILLED; `+ fillers + ["basecount"]` -> `+ ["basecount"] + fillers` KILLED;
+    # `"gene", "basecount"]` -> `"name", "basecount"]` KILLED
+    'FnCoverageDetect': ('cnvlib/coverage.py', [
+        dict(name='detect_bedcov_columns', coq='fn_detect_cols', py_params=['text'],
+             params=[("text[:text.index('\\n')]", 'S', 'firstline_text'),
+                     ("firstline.count('\\t')", 'Z', 'tabs'),
+                     ("[f'_{i}' for i in range(1, tabcount - 3)]", 'LS', 'filler_list')],
+             ret='LS'),
+    ]),
+    # interval_coverages_pileup: the per-row depth / log2 code (fragment `spans = table.end - table.start` .. `table.loc[ok_idx,
+    # "log2"] = np.log2(table.loc[ok_idx, "depth"])`): zero-width / reversed bins keep depth 0.0, the others get basecount /
+    # span; log2 is NULL_LOG2_COVERAGE unless the depth is positive (np.log2 is the logarithm oracle).
+    # (Proofs/FnCoveragePileup.v: C09_source_pileup_depth / _log2 -- Model/Coverage.v pileup_depth / pileup_log2)
+    # mutations: `ok_idx = spans > 0` -> `spans >= 0` KILLED; `ok_idx = table["depth"] > 0` -> `>= 0` KILLED; `/ spans[ok_idx]` -> `* spans[ok_idx]` KILLED
+    'FnCoveragePileup': ('cnvlib/coverage.py', [
+        dict(name='interval_coverages_pileup', coq='fn_pileup_row',
+             py_params=['bed_fname', 'bam_fname', 'min_mapq', 'procs', 'fasta'],
+             fragment=dict(first='spans = table.end', last="table['log2'] = np.log2"),
+             returns=["table['depth']", "table['log2']"],
+             params=[('table.end', 'Z', 'end_'), ('table.start', 'Z', 'start'), ("table['basecount']", 'Z', 'basecount'),
+                     ('NULL_LOG2_COVERAGE', 'Q')],
+             ret=['Q', 'Q']),
     ]),
 }
